@@ -3,7 +3,7 @@
    update()/react()/immediateChangeTo() where requests are processed, with state a active". *)
 From Coq Require Import List Arith Bool NArith Lia.
 From FFSM2 Require Import Model.TaskList Model.BitArray Model.Plan Model.Ancestors Model.Machine
-  Proofs.MachineFrame Proofs.MachinePlan Proofs.MachineLife Proofs.GuardProofs Proofs.CycleProofs Proofs.PlanStep Proofs.SerialProofs.
+  Proofs.MachineFrame Proofs.PlanProofs Proofs.MachinePlan Proofs.MachineLife Proofs.GuardProofs Proofs.CycleProofs Proofs.PlanStep Proofs.SerialProofs.
 Import ListNotations.
 
 Arguments INVALID : simpl never.
@@ -134,6 +134,27 @@ Theorem reachable_ready lg ops :
 Proof.
   intro Hok. pose proof (run_life P cfg orc (PIc P cfg) HPI Hwf Hcfg lg ops Hok) as H. cbv zeta in H |- *.
   destruct H as [I _]. split; [exact I|]. intro Ha. apply Inv_Ready; assumption.
+Qed.
+
+
+(* C10 at machine level: in every state reached by an in-contract history the plan is a well-formed bounded list
+   (PIc), and whenever it is empty the whole configured capacity is available again *)
+Theorem reachable_plan_capacity lg ops (ts : list (nat * nat)) :
+  ops_ok P cfg orc (construct P cfg orc lg) ops ->
+  let d := plan P (co P (run P cfg orc lg ops)) in
+  PIc P cfg d /\
+  (plan_tasks P (c_cap cfg) d = [] -> length ts = c_cap cfg ->
+   exists d', PlanProofs.append_all P (c_cap cfg) d ts = (d', repeat true (c_cap cfg)) /\
+              (forall o dst, plan_append P (c_cap cfg) d' o dst = (d', false))).
+Proof.
+  intro Hok. destruct (reachable_ready lg ops Hok) as [(_ & _ & _ & Hpi) _]. cbv zeta. split; [exact Hpi|].
+  intros He Hl. destruct (PIc_elim P cfg _ Hpi) as (order & Hinv & _).
+  assert (order = []).
+  { rewrite (PlanProofs.plan_tasks_spec P _ _ _ Hinv) in He. unfold PlanProofs.tasks_of in He.
+    destruct order; [reflexivity|discriminate]. }
+  subst order.
+  destruct (PlanProofs.capacity_restored P _ _ ts Hinv Hl) as (d' & A & _ & B & _).
+  exists d'. split; [exact A|exact B].
 Qed.
 
 (* ---- C11: the transition history drives a replica ---- *)
